@@ -94,13 +94,16 @@ def program(under, hook, site, arg_kind, use_first=False):
     u = UNDER[under]
     d, validated = decl(under, hook)
     imported = site.startswith("imported_")
-    extra, stm = SITES[site[len("imported_"):] if imported else site]
+    extra, stm = SITES[(site[len("imported_alias_"):] if site.startswith("imported_alias_") else site[len("imported_"):]) if imported else site]
     x = u[arg_kind]
     showp = u["show"].replace("{V}", "p")
     showhp = u["show"].replace("{V}", "h.p")
     sub = lambda t: t.replace("{X}", x).replace("{T}", u["ty"]).replace("{SHOWP}", showp).replace("{SHOWHP}", showhp).replace("{OK}", u["ok"])
     body = 'println("before")\n' + sub(stm) + '\nprintln("after")'
     main = (sub(extra) + "\n\n" if extra else "") + "def main() -> None:\n" + "\n".join("    " + l for l in body.split("\n")) + "\n"
+    if imported and site.startswith("imported_alias_"):
+        # the newtype is imported under another name: constructions through the alias go through the hook as well
+        return {"ntmod.incn": "pub " + d, "prog.incn": "from ntmod import Pos as PAlias\n\n\n" + re.sub(r"\bPos\b", "PAlias", main)}, validated
     if imported:
         return {"ntmod.incn": "pub " + d, "prog.incn": "from ntmod import Pos\n\n\n" + main}, validated
     if use_first:
@@ -154,7 +157,7 @@ def run(tier):
     cases = []
     for under in UNDER:
         for hook in hooks:
-            for site in list(SITES) + ["imported_let", "imported_argument", "imported_other_type_method"]:
+            for site in list(SITES) + ["imported_let", "imported_argument", "imported_other_type_method", "imported_alias_let", "imported_alias_argument", "imported_alias_model_field"]:
                 if site.startswith("imported_") and (under != "int" or hook not in ("from_underlying", "none")):
                     continue
                 if not thorough and under != "int" and site not in ("let", "argument", "model_field", "other_type_method"):
@@ -240,7 +243,7 @@ def run(tier):
         "evaluations": len(cases) + 2 * len(mixes),
         "distinct_nontrivial": len(sig_ok),
         "rule": "underlying type (int, str, float) x hook kind (none, from_underlying, single from_<type>, hook + other method, two from_* = no hook selected, and the single from_<type> next to each kind of sibling that does not have the hook's shape: two-parameter from_*, from_* over another type, from_* returning the bare type, instance from_*, static non-from method, parameterless from_*; from_underlying next to another well-shaped from_*) x 19 construction sites (each also with the newtype declared after its uses) "
-        "sites + 3 sites where the newtype is imported from another module (let, annotated/mut let, argument, return, model field, list element, nested call, another type's method, trait impl / default method, if / for / match blocks, "
+        "sites + 6 sites where the newtype is imported from another module (3 of them under an alias) (let, annotated/mut let, argument, return, model field, list element, nested call, another type's method, trait impl / default method, if / for / match blocks, "
         "closure, comprehension, Some(..), helper function, second construction; argument given as a variable, a call result, the payload of another newtype - local or parameter -, a model field) x argument class (accepted, rejected, boundary); quick restricts the product as stated in the code; "
         "plus 8 mixing positions for two newtypes over int (with accepted twins); non-trivial = distinct signatures that built, ran and satisfied the oracle",
         "samples": [{"sig": list(c[0]), "files": c[1]} for c in common.pick_samples(cases)],
